@@ -198,3 +198,20 @@ def operator_envelope_contracts():
                              native=(lambda N, fn=fn, arity=arity: fn(N["a"], N["b"]) if arity == 2 else fn(N["a"])),
                              ret=lambda S, r: True, exc=exc))
     return cs
+
+
+def function_envelope_contracts():
+    """layer 2, deductive part for named functions: size and the string predicates (one and two scalar arguments) and the
+    conversions (one scalar argument), real code, envelope FUNCTION_ENVELOPE"""
+    cs = []
+    exc = {c: (lambda S: True) for c in FUNCTION_ENVELOPE}
+    one = ["size", "int", "uint", "double", "string", "bytes", "bool", "type"]
+    two = ["contains", "startsWith", "endsWith", "size"]
+    for name, arity in [(n, 1) for n in one] + [(n, 2) for n in two if n != "size"]:
+        fn = ev.base_functions[name]
+        args = [("a", SCALARS)] + ([("b", SCALARS)] if arity == 2 else [])
+        cs.append(V.Contract("celpy.evaluation:base_functions", args, name=f"base_functions[{name!r}]/{arity} envelope", cover=False,
+                             invoke=(lambda run, S, fn=fn, arity=arity: run.call(VNative(fn), [S.a] + ([S.b] if arity == 2 else []))),
+                             native=(lambda N, fn=fn, arity=arity: fn(N["a"], N["b"]) if arity == 2 else fn(N["a"])),
+                             ret=lambda S, r: True, exc=exc))
+    return cs
